@@ -46,3 +46,20 @@ CONTRACTS = {
         }, 'no_error': True},
     'c13_frame': dict(frame, params={'f': M9}),
 }
+
+
+# getMargin / getGap (engine_collision_driver.c): which margin / gap governs a geom pair.  mj_assignMargin is a pure function of
+# the model option and its argument (another translation unit): named AM here.
+MARGIN_DEFS = {'AM': "z3.Function('mj_assignMargin', z3.RealSort(), z3.RealSort())"}
+M_SPEC = {'n': 1, 'ptrfields': {'pair_margin': {'len': 'm.npair'}, 'pair_gap': {'len': 'm.npair'}, 'geom_margin': {'len': 'm.ngeom'}, 'geom_gap': {'len': 'm.ngeom'}}}
+M_REQ = {'indices': '0 <= g1 and g1 < m.ngeom and 0 <= g2 and g2 < m.ngeom and ipair < m.npair and m.ngeom < 2**20 and m.npair < 2**20'}
+MARGIN_CONTRACTS = {
+    '__defs__': MARGIN_DEFS,
+    'mj_assignMargin': {'assumed': True, 'requires': {}, 'assigns': [], 'pure': True, 'ensures': {'pure_function': 'result == AM(source)'}, 'param_names': ['m', 'source']},
+    'getMargin': {'params': {'m': M_SPEC}, 'requires': M_REQ, 'assigns': [], 'no_error': True,
+                  'ensures': {'explicit_pair_uses_the_pair_margin': 'implies(ipair >= 0, result == AM(m.pair_margin[ipair]))',
+                              'dynamic_pair_uses_the_sum_of_geom_margins': 'implies(ipair < 0, result == AM(m.geom_margin[g1] + m.geom_margin[g2]))'}},
+    'getGap': {'params': {'m': M_SPEC}, 'requires': M_REQ, 'assigns': [], 'no_error': True,
+               'ensures': {'explicit_pair_uses_the_pair_gap': 'implies(ipair >= 0, result == m.pair_gap[ipair])',
+                           'dynamic_pair_uses_the_sum_of_geom_gaps': 'implies(ipair < 0, result == m.geom_gap[g1] + m.geom_gap[g2])'}},
+}
